@@ -179,7 +179,18 @@ def run_child(scn):
         return json.load(open(outp))
 
 
+# two specs whose terminals have the same text, once as a literal and once as a regex (anything memoised per terminal VALUE is shared)
+TWIN_A = '<start> ::= "[ab]" <x>*\n<x> ::= "a.c" | "q" | "a"\n'
+TWIN_B = '<start> ::= r"[ab]" <y>*\n<y> ::= r"a.c" | "z" | r"a"\n'
+TWIN_WORDS = ["a", "b", "aabc", "[ab]", "[ab]a.c", "aa.c", "bz", "[ab]q", "baxc"]
+
+
 def gen_scenario(rng):
+    if rng.random() < 0.25:
+        first, second = (TWIN_A, TWIN_B) if rng.random() < 0.5 else (TWIN_B, TWIN_A)
+        acts = [["parse", w] for w in rng.sample(TWIN_WORDS, 4)] + [["fuzz", rng.randrange(1000), dict(desired_solutions=3, max_generations=2, population_size=6)]]
+        reqs = [["parse", w] for w in rng.sample(TWIN_WORDS, 4)] + [["fuzz", rng.randrange(1000), dict(desired_solutions=3, max_generations=2, population_size=6)]]
+        return {"a_spec": first, "a_activity": acts, "b_spec": second, "b_requests": reqs, "b_first": rng.random() < 0.4}
     a_spec, a_kw = rng.choice(A_SPECS)
     b_spec, b_words = rng.choice(B_SPECS)
     acts = []
